@@ -481,6 +481,25 @@ ENV_PROGRAMS = [
     ('env-class-module-name', "class K:\n    pass\nprint(K.__qualname__, K.__module__ == __name__)\n"),
 ]
 
+# Programs given as a PATH whose behaviour depends on the import environment: executed directly (`python script.py`) the
+# script's directory is sys.path[0], whatever else is on sys.path -- in particular when that directory is ALSO listed
+# further back (PYTHONPATH of the application) and another entry in front of it offers a module of the same name.
+# (name, script, siblings = files next to the script, shadows = files in a directory placed at the FRONT of sys.path
+#  before the run while the script's directory is appended at its END; see harness/child_worker.py:import_env)
+IMPORT_PROGRAMS = [
+    ('env-import-sibling-shadowed', "import verif_helper_a\nprint(verif_helper_a.WHO)\nprint(verif_helper_a.twice(4))\n",
+     {'verif_helper_a.py': "WHO = 'the module next to the script'\ndef twice(x):\n    return 2 * x\n"},
+     {'verif_helper_a.py': "WHO = 'a module of the same name elsewhere on sys.path'\n"}),
+    ('env-import-sibling-only', "import verif_helper_b\nprint(verif_helper_b.WHO)\n",
+     {'verif_helper_b.py': "WHO = 'the module next to the script'\n"}, {}),
+    ('env-sys-path-0-is-script-dir', "import os, sys\nprint(os.path.realpath(sys.path[0]) == os.path.dirname(os.path.realpath(__file__)))\n",
+     {}, {'verif_helper_c.py': "WHO = 'unused'\n"}),
+    ('env-import-from-sibling-package', "from verif_pkg_d import thing\nprint(thing.VALUE)\n",
+     {'verif_pkg_d/__init__.py': "", 'verif_pkg_d/thing.py': "VALUE = 'sibling package'\n"},
+     {'verif_pkg_d/__init__.py': "", 'verif_pkg_d/thing.py': "VALUE = 'shadowing package'\n"}),
+]
+
+
 # Observed differences that are by design and NOT part of the family (reported to the lead):
 ENV_OBSERVATIONS = [
     ('print(__name__)', "under nextline the script's __name__ is 'nextline.spawned.plugin.plugins._script', executed directly it is "
